@@ -82,19 +82,33 @@ theorem mapM_skip (f : Str → Except Exc (List Str)) (p : Str → Bool) :
       simp only [List.filter_cons, hp]
       exact h3
 
-theorem write_ascii (d : T2Data) (hsim : d.simulator = []) (hxp : d.extraPrecision = [])
-    (cfg : WriteCfg) (hcfg : cfg.mesh = .ascii) (d' : T2Data) (f : Files) (hw : d.write cfg = .ok (d', f)) :
+theorem write_ascii (d : T2Data) (hxp : d.extraPrecision = [])
+    (cfg : WriteCfg) (hfl : FlavourOK d cfg) (hcfg : cfg.mesh = .ascii) (d' : T2Data) (f : Files) (hw : d.write cfg = .ok (d', f)) :
     d' = d.updateSections ∧ ∃ texts bl cl, (d'.sections.filter notMesh).mapM (writeSection mainTabs d') = .ok texts ∧
       writeBlocks mainTabs d'.blocks = .ok bl ∧ writeConns mainTabs d'.conns = .ok cl ∧
       f = { main := [nl (strip d.title)] ++ texts.flatten ++ [nl d.endKeyword], mesh := some (bl ++ cl), pdat := none } := by
-  have ha : d.updateSections.autough2 = false := by
-    simp [T2Data.autough2, T2Data.updateSections, hsim]
   have hx : d.updateSections.extraPrecision = [] := hxp
   unfold T2Data.write at hw
   have h1 : (MeshKind.ascii == MeshKind.ascii) = true := by decide
   have h2 : (MeshKind.ascii == MeshKind.infile) = false := by decide
-  simp only [hcfg, ha, h1, h2, Bool.false_eq_true, if_false, if_true, pure, bind, Except.pure, Except.bind, hx,
-    List.contains_nil, Bool.not_false, Bool.true_or, Bool.and_true] at hw
+  have hp := write_prefix d hxp cfg hfl
+  have hw' : Except.bind (writeBlocks mainTabs d.updateSections.blocks) (fun bl =>
+      Except.bind (writeConns mainTabs d.updateSections.conns) (fun cl =>
+      Except.bind (List.mapM (fun kw => if (![c!"ELEME", c!"CONNE"].contains kw) = true then
+                writeSection mainTabs d.updateSections kw else Except.ok []) d.updateSections.sections)
+      (fun v => (.ok (d.updateSections, { main := [nl (strip d.updateSections.title)] ++ v.flatten ++ [nl d.updateSections.endKeyword],
+                                           mesh := some (bl ++ cl), pdat := none }) : Except Exc (T2Data × Files))))) = .ok (d', f) := by
+    cases ha : d.updateSections.autough2 with
+    | false =>
+      simpa only [hcfg, ha, h1, h2, Bool.false_eq_true, if_false, if_true, pure, bind, Except.pure, Except.bind, hx,
+        List.contains_nil, Bool.not_false, Bool.true_or, Bool.and_true] using hw
+    | true =>
+      rw [ha, if_pos rfl] at hp
+      simpa only [hcfg, ha, hp, h1, h2, Bool.false_eq_true, if_false, if_true, pure, bind, Except.pure, Except.bind, hx,
+        List.contains_nil, Bool.not_false, Bool.true_or, Bool.and_true] using hw
+  clear hw
+  have hw := hw'
+  unfold Except.bind at hw
   cases hb : writeBlocks mainTabs d.updateSections.blocks with
   | error e => rw [hb] at hw; cases hw
   | ok bl =>
@@ -116,8 +130,8 @@ theorem write_ascii (d : T2Data) (hsim : d.simulator = []) (hxp : d.extraPrecisi
     than ELEME / CONNE), then `read_meshfile` on the MESH file -/
 theorem whole_read_write_ascii (d : T2Data) (step : Str → T2Data → T2Data) (Good : Str → T2Data → Prop) (K : Str → Prop)
     (hK : ∀ kw, K kw → kw ∈ allSections)
-    (hsim : d.simulator = []) (hxp : d.extraPrecision = []) (hend : IsEnd d.endKeyword)
-    (cfg : WriteCfg) (hcfg : cfg.mesh = .ascii) (d' : T2Data) (f : Files) (hw : d.write cfg = .ok (d', f))
+    (hxp : d.extraPrecision = []) (hend : IsEnd d.endKeyword)
+    (cfg : WriteCfg) (hfl : FlavourOK d cfg) (hcfg : cfg.mesh = .ascii) (d' : T2Data) (f : Files) (hw : d.write cfg = .ok (d', f))
     (hstep : ∀ kw d0, K kw → XpFree d0 → Good kw d0 → StepRT d' kw d0 (step kw d0))
     (hKs : ∀ kw ∈ d'.sections.filter notMesh, K kw)
     (hgood : GoodFrom step Good (d'.sections.filter notMesh) (startObj d))
@@ -130,7 +144,7 @@ theorem whole_read_write_ascii (d : T2Data) (step : Str → T2Data → T2Data) (
               blocks := canonBlocks d'.blocks, conns := canonConns d'.conns,
               sections := (canonFrom step (d'.sections.filter notMesh) (startObj d)).sections ++ [c!"ELEME", c!"CONNE"],
               endKeyword := d.endKeyword } := by
-  obtain ⟨hd', texts, bl, cl, hm, hbl, hcl, rfl⟩ := write_ascii d hsim hxp cfg hcfg d' f hw
+  obtain ⟨hd', texts, bl, cl, hm, hbl, hcl, rfl⟩ := write_ascii d hxp cfg hfl hcfg d' f hw
   have hlen := texts_length d' step Good K hstep _ (startObj d) texts hKs rfl hgood hm
   have hloop := whole_loop d' step Good K hK hstep d.endKeyword hend _
     (startObj d) none (texts.flatten ++ [nl d.endKeyword])
